@@ -268,7 +268,7 @@ def nested_phase(ctx, exe, npairs, hist):
         if rc != 0 or len(ref) != 2:
             ctx.violation(f"sequential reference of a nested pair did not return normally (exit {rc})", {"mode": "seq", "jobs": js, "stderr": err[-1000:]})
             continue
-        for at in ([3, 7] if known else [rng.choice([2, 3, 4, 5, 7, 9])]):
+        for at in ([3, 7] if known else [rng.choice([2, 3, 4, 5])]):
             rc, got, _, err = run_h(ctx, exe, js, 0, 0, 0, hold=at)
             evals += 2
             key = f"{outer[0]}>{inner[0]}"
@@ -304,7 +304,7 @@ def names_phase(ctx, exe, njobs, hist):
     import tempfile
     js = gt.default_name_jobs(ctx.rng, njobs)
     ctx.log(f"phase default names: {len(js)} jobs at two id offsets")
-    return names_phase_jobs(ctx, exe, js, ctx.rng.randint(1, 9), hist)
+    return names_phase_jobs(ctx, exe, js, ctx.rng.randint(2, 11), hist)
 
 
 def names_phase_jobs(ctx, exe, js, offset, hist):
